@@ -444,7 +444,9 @@ func c10R4(c *Ctx) {
 	}
 	c.Floor("C10.R4", "failure returns of podCreate after createENI", 2, n)
 	// same object handed to createENI, Create and the roll-back
-	same := identObj(info, du.undo.Args[1]) != nil && identObj(info, du.undo.Args[1]) == identObj(info, createCall.Args[3])
+	// (the record is the one argument of type *PodENI of either call, wherever it stands)
+	a, b := argByNamedType(info, du.undo, "PodENI"), argByNamedType(info, createCall, "PodENI")
+	same := a != nil && b != nil && identObj(info, a) != nil && identObj(info, a) == identObj(info, b)
 	c.Check(same, "C10.R4", "roll-back deletes the interfaces recorded by createENI", p.Pos(du.undo), fn.Key(), "deleteAllENI(podENI) with the podENI that createENI fills", "different objects")
 	// deleteAllENI ranges over all allocations and stops only on error
 	dinfo := da.Info()
@@ -955,4 +957,18 @@ func c10R14(c *Ctx) {
 	q := NewPathQuery(p, fn, nil)
 	w := q.Escapes(isExactly(create), assigns, nil, nil)
 	c.Check(w == nil, "C10.R14", "podCreate: the roll-back cannot fire after the record exists", p.Pos(create), fn.Key(), "never-before: Create(record) → "+errObj.Name()+" = …", "path: "+p.describePath(w))
+}
+
+// argByNamedType returns the one argument of call whose type is (a pointer to) the named type.
+func argByNamedType(info *types.Info, call *ast.CallExpr, name string) ast.Expr {
+	var found ast.Expr
+	for _, a := range call.Args {
+		if n := derefNamed(info.TypeOf(a)); n != nil && n.Obj().Name() == name {
+			if found != nil {
+				return nil
+			}
+			found = a
+		}
+	}
+	return found
 }
